@@ -372,13 +372,19 @@ class Counters(EngineBase):
         for i in range(nops):
             # advance the kernel's counters
             def bump():
+                # a quiet period now and then (few counters move), and now
+                # and then a big step back (VM resume, counter re-sync): the
+                # clamps to [0, 100] are only reachable that way
+                act = rng.choice([0.7, 0.7, 0.7, 0.3])
                 for c in cpu_ids:
                     row = rows[str(c)]
                     for j in range(10):
                         r = rng.random()
                         if r < back_rate:
-                            row[j] = max(0, row[j] - rng.randrange(1, 50))
-                        elif r < 0.7:
+                            row[j] = max(0, row[j] - rng.choice(
+                                [rng.randrange(1, 50), rng.randrange(1, 50),
+                                 rng.randrange(100, 3000)]))
+                        elif r < act:
                             inc = rng.randrange(0, 8 if small else 400)
                             row[j] += inc
                             # the kernel accounts guest time in user/nice too
